@@ -167,3 +167,13 @@ PROPS["C02"] = dict(
     trusted=TX_TRUSTED + AOL_TRUSTED,
     assumptions=["gov- and group-executed messages are outside the model"],
 )
+
+PROPS["C07"] = dict(
+    module="Panacea.Properties.C07",
+    obligations=["Panacea.C07.burn_endblock_spec", "Panacea.C07.burn_endblock_send_never_fails"],
+    streams=[dict(name="burn", quick=40, thorough=800, thorough_seeds=3)],
+    trusted=["hand-written Lean model Panacea/Model/Bank.lean of the parts of cosmos-sdk v0.47.12 x/bank the burn module uses (SpendableCoins, SendCoins incl. its coin-by-coin debit without rollback, BurnCoins, vesting locks) and of x/burn's end-blocker, tied by the burn stream: a real app, multi-denomination sends and vesting-account creation at the burn address, the real EndBlock/Commit of every block, balances/spendable/supply deltas compared, crisis.AssertInvariants after every history",
+             "staking/distribution/gov invariants are not modelled: asserted on the implementation only (mon.c07.inv)"],
+    assumptions=["denomination universe without duplicates; burn address != burn module account; locked <= balance at the burn address"],
+    note="theorems are about the code after fix 43012583 (F11); burnEndBlockOld with a decide-checked witness shows the unrepaired behaviour",
+)
